@@ -88,9 +88,16 @@ func C20Scalars() {
 		sym.Assert(math.Float32bits(back) == bits, "float32->float64->float32/roundtrip")
 	case 5:
 		src := sym.Str("s", sym.Choose("slen", 3))
+		if sym.Bool("a-string-that-is-not-well-formed-utf8") {
+			// strings are byte strings (concrete samples: rune decoding of symbolic bytes is not encoded)
+			src = []string{"caf\xe9", "\xff", "a\xc3", "\x80abc"}[sym.Choose("which", 4)]
+		}
 		var dst string
 		sym.Assert(ConvertFrom(&dst, src) == nil, "string/ok")
 		sym.Assert(sym.EqStr(dst, src), "string/value")
+		var back string
+		sym.Assert(ConvertFrom(&back, dst) == nil, "string/back-ok")
+		sym.Assert(sym.EqStr(back, src), "string/roundtrip")
 	case 6:
 		src := sym.Bool("b")
 		var dst bool
